@@ -47,11 +47,21 @@ PROPS = {
     "C02": spec([reg("C02", 24000, 40, 4000000, 780)]),
     "C03": spec([reg("C03", 20000, 40, 4000000, 780)]),
     "C04": spec([reg("C04", 20000, 40, 4000000, 780)]),
+    "C05": spec([reg("C05", 10000, 40, 2000000, 600),
+                 reg("hash", 1600, 30, 400000, 600)],
+                level="fault_enumeration",
+                extra_assumptions=[
+                    "hook H1 (guarded) lets the plan choose the seed and the attempt budget of the hash search; with no plan value the shipped constants apply",
+                    "the id ~0 (yomm2's invalid_type, the empty-bucket marker) is not used as a probe"]),
     "C06": spec([reg("C06", 10000, 45, 2000000, 780)]),
     "C07": spec([reg("C07", 12000, 45, 2000000, 780)]),
     "C08": spec([reg("C08", 16000, 45, 3000000, 780)]),
+    "C09": spec([reg("C09", 16000, 45, 3000000, 780)]),
     "C10": spec([reg("C10", 12000, 45, 2000000, 780)]),
     "C14": spec([reg("C14", 12000, 45, 2000000, 780)]),
+    "C15": spec([reg("C15", 16000, 45, 3000000, 780)],
+                level="fault_enumeration"),
     "C17": spec([reg("C17", 24000, 40, 4000000, 780)]),
-    "C18": spec([reg("C18", 12000, 40, 2000000, 600)]),
+    "C18": spec([reg("C18", 12000, 40, 2000000, 500),
+                 reg("list", 40000, 30, 4000000, 300)]),
 }
